@@ -41,6 +41,7 @@ type Contract struct {
 	Params   []string // names bound positionally to receiver+params
 	Results  []string
 	Requires []*Expr
+	Scope    []*Expr // domain restriction of the functional clauses: assumed when they are checked; callers get scope ==> ensures
 	Ensures  []*Expr
 	Checks   []*Expr // postconditions that mention internal variables (witnesses): verified, not exported to callers
 	Names    []*Expr // definitional clauses: assumed at call sites, never checked (they name the verdict of a deterministic operation)
@@ -93,7 +94,7 @@ type ContractSet struct {
 }
 
 var clauseKeywords = map[string]bool{"func": true, "interface": true, "spec": true, "abstract": true, "requires": true, "ensures": true,
-	"assigns": true, "loop": true, "decreases": true, "arith": true, "pure": true, "lemma": true, "trusted": true, "noframe": true, "invariant": true, "nonnil": true, "names": true, "ospec": true, "checks": true, "counted": true, "axiom": true, "monitor": true}
+	"assigns": true, "loop": true, "decreases": true, "arith": true, "pure": true, "lemma": true, "trusted": true, "noframe": true, "invariant": true, "nonnil": true, "names": true, "ospec": true, "checks": true, "counted": true, "axiom": true, "monitor": true, "scope": true}
 
 func loadContracts(files []string) (*ContractSet, error) {
 	cs := &ContractSet{funcs: map[string]*Contract{}, ifaces: map[string]*Contract{}, specs: map[string]*specFn{}, invs: map[string][]*TypeInv{}, nonnil: map[string]bool{}}
@@ -233,7 +234,7 @@ func (cs *ContractSet) loadFile(path string) error {
 				cs.lemmas = append(cs.lemmas, lm)
 			}
 			cur = nil
-		case "requires", "ensures", "decreases", "names", "checks":
+		case "requires", "ensures", "decreases", "names", "checks", "scope":
 			if cur == nil {
 				return fail(fmt.Errorf("clause outside a contract"))
 			}
@@ -250,6 +251,8 @@ func (cs *ContractSet) loadFile(path string) error {
 				cur.Names = append(cur.Names, e)
 			case "checks":
 				cur.Checks = append(cur.Checks, e)
+			case "scope":
+				cur.Scope = append(cur.Scope, e)
 			default:
 				cur.Decreases = append(cur.Decreases, e)
 			}
